@@ -569,6 +569,7 @@ end Agd.Record
 #print axioms Agd.Tie.TrC15.bpProfileToInternal_tr
 #print axioms Agd.Tie.TrC15.httpsScan
 #print axioms Agd.Tie.TrC15.scanSt_find
+#print axioms Agd.Tie.TrC15.ipFromHTTPSRR_first_scan
 #print axioms Agd.Tie.TrC15.ipFromHTTPSRR_first
 #print axioms Agd.Tie.TrC15.answerScan
 #print axioms Agd.Tie.TrC15.ipFromAnswer_first
